@@ -275,3 +275,17 @@ Proof.
   - repeat constructor; unfold in_s; cbn; lia.
   - split; vm_compute; reflexivity.
 Qed.
+
+(* ------------------------------------------------------------------ statements about the exported table *)
+Lemma table_covers o : valid_op o = true -> exists p, In (o, p) table.
+Proof. intros H. exists (expected o). now apply table_complete. Qed.
+
+Lemma table_value fuel o p args r : (64 < fuel)%nat ->
+  In (o, p) table -> args_ok o args ->
+  wop_sem_signed o args = Some r -> py_run fuel p args = Ok r.
+Proof. intros F I A S. destruct (table_sound o p I) as [-> V]. now apply py_run_value. Qed.
+
+Lemma table_div_zero fuel w b p x : is_div b = true -> In (Bin w b, p) table ->
+  in_s (bits w) x ->
+  wop_sem_signed (Bin w b) [x; 0] = None /\ py_run fuel p [x; 0] = Internal ZeroDiv.
+Proof. intros D I Hx. destruct (table_sound _ p I) as [-> V]. now apply py_run_div_zero. Qed.
